@@ -503,3 +503,5 @@ def plan(tier):
         "budget_s": 200 if quick else 1800,
         "collect_all": True,
     }
+
+RULE += (" Also: every reply kind of the catalogue (15) as an incoming stanza after its request was sent from the top (in_reply), replies to the application's and the keep-alive's ping (in_ping_reply); every case is evaluated a second time with the logger layer at DEBUG.")
